@@ -19,6 +19,9 @@ from harness import sites as S
 
 PID = 'C13'
 THEOREMS = [
+    'PyDBML.C13.norm_idem',
+    'PyDBML.C13.removeIndentation_idem',
+    'PyDBML.C13.norm_not_idem_exotic',
     'PyDBML.C13.sql_text_no_quote',
     'PyDBML.C13.sql_note_literal',
     'PyDBML.C13.sql_expr_verbatim',
@@ -28,7 +31,7 @@ THEOREMS = [
     'PyDBML.C13.stringLiteral_reads_one_line',
     'PyDBML.C13.stringLiteral_reads_triple',
 ]
-MODULES = ['PyDBMLProofs.Props.C13', 'PyDBMLProofs.Props.C13Lex']
+MODULES = ['PyDBMLProofs.Props.C13', 'PyDBMLProofs.Props.C13Lex', 'PyDBMLProofs.Props.C13Norm']
 FNS = ['comment', 'tools_indent', 'remove_bom', 'strip_empty_lines', 'remove_indentation', 'norm',
        'doublequote_string', 'prepare_text_for_dbml', 'quote_string', 'note_option_to_dbml',
        'prepare_text_for_sql', 'textwrap_indent', 'isspace', 'splitlines']
@@ -242,8 +245,10 @@ def main(tier, seed):
              'indentation context; each through all 14 L1 functions on both sides. Sites: text x 12 text-bearing '
              'positions through real render->parse. Non-trivial: contains a quote, backslash, backtick, line break or '
              'non-ASCII character (text), a line break (idem), a critical character (sites). Distinct by canonical hash.',
-        explanation='Lean theorems (norm idempotence, SQL literal safety, quote escaping) about the model of the text '
-                    'helpers; model tied to pydbml/tools.py and renderer utils by exhaustive/sampled differential '
+        explanation='Lean theorems about the model of the text helpers: norm_idem (normalisation is idempotent on every text '
+                    'without exotic blank lines; norm_not_idem_exotic shows the hypothesis is tight, which is the known finding '
+                    'WhitespaceOnlyLine), removeIndentation_idem (unconditional), SQL literal safety, quote escaping and '
+                    'string-literal reading (unquote_prepare, scanQ*_prepare, stringLiteral_reads_*); model tied to pydbml/tools.py and renderer utils by exhaustive/sampled differential '
                     'testing; property oracles on the real parser/renderers for the round trip at each site.',
         assumptions=['CPython str/re semantics are modelled, validated per character over the BMP',
                      'site round trip is decided by the model-free oracle on sampled texts; theorems cover the lexical layer'],
